@@ -91,6 +91,17 @@ check("C03", "model_checking", "simkernel",
       "Trusted: vlib/simkernel.py (process table, signal delivery at facade calls, virtual time); workers are modelled processes; delivery points are call boundaries and shared-dict accesses, not arbitrary bytecodes; two known findings (fork/SIGCHLD bookkeeping race) are listed in known_findings.json.",
       "DESIGN.md section 3, C03; Appendix C")
 
+check("C04", "exploration", "simkernel+realproc",
+      "exhaustive enumeration of shutdown scenarios: (a) real Arbiter.run() in the simulated kernel: pool history x stop signal(s) x worker reaction x bind, plus every mid-flight event at every delivery point of the shutdown; (c) real gunicorn processes: worker class x signal x connection phase (held by a gate) x application behaviour x bind",
+      "(a) 432 stop transitions and ~9k runs with mid-flight injections judge exit status 0, exit no later than graceful_timeout in virtual time, no early SIGKILL, right signals, nothing alive, listeners closed, unix path unlinked, pid file removed (real Pidfile on the simulated FS). (c) 46 (thorough ~450) real runs hold a connection in each phase of its life while TERM/INT/QUIT is sent: the held request must be answered in full when the application finishes within the graceful timeout (also when it finishes only after the worker began draining, and with two listeners), the master must exit 0 in time, no process of its session may survive, connect must be refused, pid file and unix socket file must be gone.",
+      "Trusted: vlib/simkernel.py; wall-clock upper bounds (graceful_timeout + 3 s) and a 2 s settle window in the real runs; a real-process anomaly counts only if it reproduces serially; kernel scheduling inside a phase and TLS are outside the bound.",
+      "DESIGN.md section 3, C04")
+check("C10", "exploration", "simkernel+realproc",
+      "exhaustive enumeration of reload scenarios: (a) real Arbiter in the simulated kernel: HUP histories x worker counts x old-worker reaction (incl. TERM lost in the boot window) x bind spelling, plus every mid-flight event at every delivery point from the first HUP on; (c) real processes: worker class x scenario (idle, request in the application, response half written, head half received, two HUPs, changed / removed worker count) x bind under a background connector",
+      "(a) 162 histories / ~3.4k runs: no listener is closed and create_sockets is not called again with an unchanged address (also when the bind is spelled with a host name), TERM reaches old workers only after the new generation was forked, after settling tracked == live == the newly configured number and nobody from before the last HUP is alive, the pid file keeps naming the master. (c) 28 (thorough 84) real runs: the gated request is completed by the worker that took it, a connector opening a connection every 5 ms is never refused, afterwards only new pids carrying the new configuration marker answer, in the new number.",
+      "Trusted: vlib/simkernel.py; 'not refused at any moment' is sampled every 5 ms in the real runs, the exhaustive argument is the simulated master never closing a listener; one known finding (TERM lost in the boot window followed by TTIN) is listed.",
+      "DESIGN.md section 3, C10")
+
 ALL = ["C%02d" % i for i in range(1, 21)]
 for pid in ALL:
     if pid not in CHECKS:
@@ -113,6 +124,8 @@ m = {
          "kind_free_text": "real configuration loads in child processes with controlled argv / environment / cwd / config file"},
         {"name": "simkernel", "path": "vlib/simkernel.py", "serves_properties": ["C03", "C04", "C10", "C11", "C14"],
          "kind_free_text": "real Arbiter.run() driven inside a deterministic simulated kernel; explicit-state search over quiescent states + mid-flight event injection at every delivery point"},
+        {"name": "simkernel+realproc", "path": "vlib/realproc.py", "serves_properties": ["C04", "C10", "C11", "C14", "C18", "C20"],
+         "kind_free_text": "real gunicorn masters/workers started from the working tree, connections held in chosen phases by gates; finite scenario products walked completely"},
         {"name": "simfs", "path": "vlib/simfs.py", "serves_properties": ["C17"],
          "kind_free_text": "real Pidfile class on an in-memory file system with a syscall log and crash injection; conformance replay on a real directory"},
         {"name": "explore+gparse", "path": "vlib/gparse.py", "serves_properties": ["C01", "C06", "C07", "C12"],
